@@ -210,6 +210,7 @@ def run(module, tier, seed, nproc=16):
         "outcomes": dict(sorted(merged.outcomes.items(), key=lambda kv: -kv[1])[:60]),
         "failing_cases": merged.nfail,
         "known_finding_cases": sum(1 for f in merged.failures if _match_known(prop, f["sig"], known)),
+        "failure_signatures": dict(collections.Counter(f["sig"] for f in merged.failures)),
         "caps_hit": ["deadline"] if merged.capped else [],
         "tree_hash": build.tree_hash(),
     }
